@@ -215,7 +215,7 @@ func vTokens(s string) (ints []int, texts []string) {
 var vCallLog = map[string]int{}
 
 func vTag(p interface{}, name string) {}
-func vCalls(name string) int      { return vCallLog[name] }
+func vCalls(name string) int          { return vCallLog[name] }
 
 // vGoCount: how many goroutines were launched with the given string among their arguments
 // (symbolic executor only; natively launching the tasks is not possible in a replay).
@@ -244,3 +244,10 @@ func vScanner(lines []string, n int) *bufio.Scanner {
 func vRecvCount(kind string) int                 { return 0 }
 func vRecvFlagCount(field string, want bool) int { return 0 }
 func vLastOut() string                           { return "" }
+
+// further select-model observers (executor only): number of select statements executed, whether case c of the
+// k-th one was taken, the value it received; vOutCount: how many lines written to standard output equal the text
+func vRecvN() int                     { return 0 }
+func vRecvTaken(k, c int) bool        { return false }
+func vRecvValue(k, c int) interface{} { return nil }
+func vOutCount(text string) int       { return 0 }
